@@ -8,6 +8,7 @@ Search: the clauses of the property are evaluated on the real code with an indep
 """
 from __future__ import annotations
 
+import ast
 import copy
 import itertools
 import math
@@ -31,6 +32,11 @@ THEOREMS = [
     'C15.resolve_pos_iff_unique', 'C15.interstitial_ok_iff_free',
     'C15.guardAtype_ok', 'C15.atol_none_is_default', 'C15.refuse_bad_atype',
     'C15.dvect_scale', 'C15.within_scale', 'C15.search_scale_invariant',
+    # checked source tie: Generated/PointSource.lean (regenerated from point.py) = the hand model
+    'C15.gen_signatures_eq_model', 'C15.gen_dflt_eq_model', 'C15.gen_raises_eq_model',
+    'C15.gen_vacancy_site_eq_model', 'C15.gen_substitutional_site_eq_model', 'C15.gen_dumbbell_site_eq_model',
+    'C15.gen_vacancy_eq_model', 'C15.gen_interstitial_eq_model', 'C15.gen_substitutional_eq_model',
+    'C15.gen_dumbbell_eq_model', 'C15.gen_point_eq_model',
 ]
 PARTIAL = {
     'periodic image beyond the adjacent cells': 'pos_eq_index_selection is proved for a position that is the atom '
@@ -99,6 +105,793 @@ TRUSTED = ['numpy indexing/assignment in the implementation run', 'shared Lean m
 
 RESERVED = ('atype', 'pos', 'old_id')
 DEFAULT_ATOL = 0.01
+
+
+# ----------------------------------------------------------------------------------------
+# translator: atomman/defect/point.py  ->  lean/Atomman/Generated/PointSource.lean
+# ----------------------------------------------------------------------------------------
+#
+# Every function of point.py is re-read with `ast` on each check and compiled, statement by statement, into a Lean
+# definition over the source-level primitives of Atomman/C15.lean (siteMatches, sliced, setLastAtype, ...).  What is
+# taken from the source: signatures and defaults, the default-tolerance literal, every branch condition (operators,
+# operands, constants) and the order of the branches, which variable is narrowed / reassigned where, the index-list
+# operations in order, the keyword -> property routing of the per-property loop (first matching branch, else branch
+# instantiated for the remaining properties), `kwargs.pop` keys and defaults, the [-1] / [-2] targets, the closing guard,
+# the keyword routing of the dispatcher's calls (a keyword that is not handed on becomes the callee's default).
+# Proofs/C15_Source.lean proves each generated function equal to the hand model (`gen_..._eq_model`).
+# Anything outside the subset raises TranslationError (the check then reports the tie as broken and runs the search).
+
+GENERATED = ['PointSource']
+POINT_FILE = 'atomman/defect/point.py'
+GEN_FUNCS = ('vacancy', 'interstitial', 'substitutional', 'dumbbell', 'point')
+_BASE_TYPES = {'pos': 'V3', 'db_vect': 'V3', 'ptd_id': 'Int', 'scale': 'Bool', 'atol': 'K', 'atype': 'Int',
+               'ptd_type': 'Str', 'system': 'Sys'}
+_LEAN_TYPES = {'V3': 'V3 K', 'OptV3': 'Option (V3 K)', 'Int': 'Int', 'OptInt': 'Option Int', 'Bool': 'Bool', 'K': 'K',
+               'OptK': 'Option K', 'Str': 'String', 'Kw': 'Kw K', 'Sys': 'Sys K', 'Nat': 'Nat'}
+
+
+def _TE(msg, node=None):
+    from ..translate import TranslationError
+    where = ''
+    if node is not None:
+        try:
+            where = f' [line {getattr(node, "lineno", "?")}: {ast.unparse(node)[:90]}]'
+        except Exception:
+            pass
+    return TranslationError(msg + where)
+
+
+def _adump(n):
+    return ast.dump(n)
+
+
+def _pe(src):
+    return ast.dump(ast.parse(src, mode='eval').body)
+
+
+def _tind(lines, n=2):
+    return [' ' * n + l for l in lines]
+
+
+def _lstr(s):
+    return '"' + s.replace('\\', '\\\\').replace('"', '\\"') + '"'
+
+
+class _Fn:
+    """compiler of one function of point.py."""
+
+    def __init__(self, node, sigs, ptypes):
+        self.node = node
+        self.name = node.name
+        self.sigs = sigs            # name -> [(param, default-as-written | '' | '**')]
+        self.ptypes = ptypes        # name -> {param: type} of the functions compiled so far
+        self.dflt = None            # (num, den, unit)
+        self.notes = []
+        self.kwname = node.args.kwarg.arg if node.args.kwarg else None
+        self.nbind = 0
+        self.aux = []
+
+    # ---- parameters ------------------------------------------------------------------
+    def _tested_none(self, name):
+        for n in ast.walk(self.node):
+            if isinstance(n, ast.Compare) and isinstance(n.left, ast.Name) and n.left.id == name \
+                    and len(n.ops) == 1 and isinstance(n.ops[0], (ast.Is, ast.IsNot)) \
+                    and isinstance(n.comparators[0], ast.Constant) and n.comparators[0].value is None:
+                return True
+        return False
+
+    def params(self):
+        out = []
+        for p, d in self.sigs[self.name]:
+            if p.startswith('**'):
+                out.append((p[2:], 'Kw'))
+                continue
+            if p not in _BASE_TYPES:
+                raise _TE(f'{self.name}: unknown parameter {p}')
+            t = _BASE_TYPES[p]
+            if d == 'None' and (self.name == 'point' or self._tested_none(p)):
+                if t not in ('V3', 'Int', 'K'):
+                    raise _TE(f'{self.name}: optional parameter {p} of type {t}')
+                t = 'Opt' + t
+            out.append((p, t))
+        return out
+
+    # ---- expressions -----------------------------------------------------------------
+    def fresh(self, stem):
+        self.nbind += 1
+        return f'{stem}{self.nbind}'
+
+    def asInt(self, lean, t, node):
+        if t == 'Int':
+            return lean
+        if t == 'Nat':
+            return f'(({lean} : Nat) : Int)'
+        raise _TE(f'integer expected, got {t}', node)
+
+    def ex(self, n, env):
+        """-> (lean, type, binds); binds = [(var, Except-valued lean)] to be matched before the expression."""
+        if isinstance(n, ast.Constant):
+            v = n.value
+            if isinstance(v, bool):
+                return ('true' if v else 'false'), 'Bool', []
+            if isinstance(v, int):
+                return f'({v} : Int)', 'Int', []
+            if isinstance(v, str):
+                return _lstr(v), 'Str', []
+            raise _TE('unsupported constant', n)
+        if isinstance(n, ast.Name):
+            if n.id not in env:
+                raise _TE(f'name {n.id} is not defined on every path here', n)
+            return env[n.id][0], env[n.id][1], []
+        if isinstance(n, ast.UnaryOp) and isinstance(n.op, ast.USub) and isinstance(n.operand, ast.Constant) \
+                and isinstance(n.operand.value, int) and not isinstance(n.operand.value, bool):
+            return f'(-{n.operand.value} : Int)', 'Int', []
+        if isinstance(n, ast.UnaryOp) and isinstance(n.op, ast.Not):
+            a, t, b = self.prop(n.operand, env)
+            return f'¬ ({a})', 'Prop', b
+        if isinstance(n, ast.BoolOp):
+            parts, binds = [], []
+            for v in n.values:
+                a, t, b = self.prop(v, env)
+                parts.append(f'({a})')
+                binds += b
+            return (' ∧ ' if isinstance(n.op, ast.And) else ' ∨ ').join(parts), 'Prop', binds
+        if isinstance(n, ast.Compare):
+            if len(n.ops) != 1:
+                raise _TE('chained comparison', n)
+            op, l, r = n.ops[0], n.left, n.comparators[0]
+            if isinstance(op, (ast.Is, ast.IsNot)) and isinstance(r, ast.Constant) and r.value is None:
+                a, t, b = self.ex(l, env)
+                if not t.startswith('Opt'):
+                    raise _TE(f'`is None` test of a value of type {t}', n)
+                return f'{a}.{"isNone" if isinstance(op, ast.Is) else "isSome"} = true', 'Prop', b
+            if isinstance(op, (ast.In, ast.NotIn)) and isinstance(l, ast.Constant) and l.value == 'old_id' \
+                    and isinstance(r, ast.Call) and not r.args and not r.keywords and isinstance(r.func, ast.Attribute) \
+                    and r.func.attr == 'atoms_prop' and isinstance(r.func.value, ast.Name):
+                a, t, b = self.ex(r.func.value, env)
+                if t == 'Sys':
+                    return f'hasOldId {a} = {"true" if isinstance(op, ast.In) else "false"}', 'Prop', b
+            a, ta, ba = self.ex(l, env)
+            c, tc, bc = self.ex(r, env)
+            if ta == 'Str' and tc == 'Str' and isinstance(op, (ast.Eq, ast.NotEq)):
+                return f'{a} {"=" if isinstance(op, ast.Eq) else "≠"} {c}', 'Prop', ba + bc
+            sym = {ast.Lt: '<', ast.LtE: '≤', ast.Gt: '>', ast.GtE: '≥', ast.Eq: '=', ast.NotEq: '≠'}.get(type(op))
+            if sym is None:
+                raise _TE('unsupported comparison operator', n)
+            return f'{self.asInt(a, ta, l)} {sym} {self.asInt(c, tc, r)}', 'Prop', ba + bc
+        if isinstance(n, ast.BinOp) and isinstance(n.op, (ast.Add, ast.Sub)):
+            a, ta, ba = self.ex(n.left, env)
+            c, tc, bc = self.ex(n.right, env)
+            s = '+' if isinstance(n.op, ast.Add) else '-'
+            if ta == 'V3' and tc == 'V3':
+                return f'({a} {s} {c})', 'V3', ba + bc
+            return f'({self.asInt(a, ta, n.left)} {s} {self.asInt(c, tc, n.right)})', 'Int', ba + bc
+        if isinstance(n, ast.Attribute):
+            d = _adump(n)
+            if d == _pe('system.natoms') and env.get('system', ('', ''))[1] == 'Sys':
+                return '((system.atoms.length : Nat) : Int)', 'Int', []
+            raise _TE('unsupported attribute', n)
+        if isinstance(n, ast.Subscript):
+            # hits[0][0], hits[0]
+            if isinstance(n.value, ast.Subscript) and isinstance(n.value.value, ast.Name) \
+                    and _adump(n.slice) == _pe('0') and _adump(n.value.slice) == _pe('0'):
+                a, t, b = self.ex(n.value.value, env)
+                if t == 'Hits':
+                    return f'({a}.headD 0)', 'Nat', b
+            if isinstance(n.value, ast.Name) and _adump(n.slice) == _pe('0'):
+                a, t, b = self.ex(n.value, env)
+                if t == 'Hits':
+                    return a, 'HitList', b
+            # system.atoms.atype[i]
+            if _adump(n.value) == _pe('system.atoms.atype') and env.get('system', ('', ''))[1] == 'Sys':
+                a, t, b = self.ex(n.slice, env)
+                if t != 'Nat':
+                    raise _TE('atype of an index that is not normalised on every path', n)
+                v = self.fresh('t_site')
+                return v, 'Int', b + [(v, f'atypeAt system {a}')]
+            # d_system.atoms.atype[-1]
+            if isinstance(n.value, ast.Attribute) and n.value.attr == 'atype' and isinstance(n.value.value, ast.Attribute) \
+                    and n.value.value.attr == 'atoms' and isinstance(n.value.value.value, ast.Name) \
+                    and _adump(n.slice) == _pe('-1'):
+                a, t, b = self.ex(n.value.value.value, env)
+                if t == 'Sys' and n.value.value.value.id != 'system':
+                    v = self.fresh('t_last')
+                    return v, 'Int', b + [(v, f'lastAtype {a}')]
+            raise _TE('unsupported subscript', n)
+        if isinstance(n, ast.Call):
+            return self.call(n, env)
+        raise _TE('unsupported expression', n)
+
+    def prop(self, n, env):
+        a, t, b = self.ex(n, env)
+        if t == 'Prop':
+            return a, t, b
+        if t == 'Bool':
+            return f'{a} = true', 'Prop', b
+        raise _TE(f'condition of type {t}', n)
+
+    def call(self, n, env):
+        f = _adump(n.func)
+        kw = {k.arg: k.value for k in n.keywords}
+        nargs = len(n.args)
+
+        def shape(npos, kws):
+            return nargs == npos and sorted(kw) == sorted(kws)
+
+        if f == _pe('len') and shape(1, []):
+            a, t, b = self.ex(n.args[0], env)
+            if t == 'Hits':       # np.where of a 1-d array: a 1-tuple
+                return '(1 : Int)', 'Int', b
+            if t == 'HitList':
+                return f'((({a}).length : Nat) : Int)', 'Int', b
+            if t == 'Kw':
+                return f'((({a}).count : Nat) : Int)', 'Int', b
+            raise _TE(f'len of {t}', n)
+        if f == _pe('np.asarray') and shape(1, ['dtype']) and _adump(kw['dtype']) == _pe('float'):
+            a, t, b = self.ex(n.args[0], env)
+            if t != 'V3':
+                raise _TE(f'np.asarray of {t}', n)
+            return a, t, b
+        if f == _pe('deepcopy') and shape(1, []):
+            return self.ex(n.args[0], env)
+        if f == _pe('system.box.position_relative_to_cartesian') and shape(1, []):
+            a, t, b = self.ex(n.args[0], env)
+            if t != 'V3':
+                raise _TE('position_relative_to_cartesian of a non-vector', n)
+            return f'(system.box.relToCart {a})', 'V3', b
+        if f == _pe('np.dot') and shape(2, []) and _adump(n.args[1]) == _pe('system.box.vects'):
+            a, t, b = self.ex(n.args[0], env)
+            if t != 'V3':
+                raise _TE('np.dot of a non-vector', n)
+            return f'(M3.vecMul {a} system.box.vects)', 'V3', b
+        if f == _pe('np.linalg.norm') and shape(1, ['axis']) and _adump(kw['axis']) == _pe('1'):
+            inner = n.args[0]
+            if isinstance(inner, ast.Call) and _adump(inner.func) == _pe('np.atleast_2d') and len(inner.args) == 1 \
+                    and not inner.keywords:
+                dv = inner.args[0]
+                if isinstance(dv, ast.Call) and _adump(dv.func) == _pe('system.dvect') and len(dv.args) == 2 \
+                        and not dv.keywords and _adump(dv.args[1]) == _pe('system.atoms.pos'):
+                    a, t, b = self.ex(dv.args[0], env)
+                    if t == 'V3':
+                        return a, 'Dist', b
+            raise _TE('distance computation not of the form norm(atleast_2d(system.dvect(pos, system.atoms.pos)), axis=1)', n)
+        if f == _pe('np.isclose') and shape(2, ['atol']) and isinstance(n.args[1], ast.Constant) \
+                and type(n.args[1].value) in (int, float) and n.args[1].value == 0:
+            a, t, b = self.ex(n.args[0], env)
+            c, tc, bc = self.ex(kw['atol'], env)
+            if t == 'Dist' and tc == 'K':
+                return f'{a} {c}', 'Close', b + bc
+            raise _TE('np.isclose operands', n)
+        if f == _pe('np.where') and shape(1, []):
+            a, t, b = self.ex(n.args[0], env)
+            if t == 'Close':
+                return f'(siteMatches system {a})', 'Hits', b
+            raise _TE('np.where of something else than np.isclose(dist, 0.0, atol=atol)', n)
+        if f == _pe('uc.set_in_units') and shape(2, []) and isinstance(n.args[0], ast.Constant) \
+                and isinstance(n.args[1], ast.Constant) and isinstance(n.args[1].value, str) \
+                and type(n.args[0].value) in (int, float):
+            fr_ = Fraction(str(n.args[0].value))
+            lit = (fr_.numerator, fr_.denominator, n.args[1].value)
+            if self.dflt is not None and self.dflt != lit:
+                raise _TE('two different default tolerances in one function', n)
+            self.dflt = lit
+            return 'dflt', 'K', []
+        if f == _pe('list') and shape(1, []) and _adump(n.args[0]) == _pe('range(system.natoms)'):
+            return '(List.range system.atoms.length)', 'ListNat', []
+        if f == _pe('System'):
+            want = {'box': 'deepcopy(system.box)', 'pbc': 'deepcopy(system.pbc)', 'symbols': 'system.symbols',
+                    'masses': 'system.masses'}
+            if nargs == 0 and sorted(kw) == sorted(list(want) + ['atoms']) \
+                    and all(_adump(kw[k]) == _pe(v) for k, v in want.items()):
+                at = kw['atoms']
+                if isinstance(at, ast.Call) and _adump(at.func) == _pe('deepcopy') and len(at.args) == 1 \
+                        and isinstance(at.args[0], ast.Subscript) and _adump(at.args[0].value) == _pe('system.atoms'):
+                    a, t, b = self.ex(at.args[0].slice, env)
+                    if t == 'ListNat':
+                        v = self.fresh('d_new')
+                        return v, 'Sys', b + [(v, f'sliced system {a}')]
+            raise _TE('System(...) not of the form System(box=deepcopy(system.box), pbc=deepcopy(system.pbc), '
+                      'atoms=deepcopy(system.atoms[index]), symbols=system.symbols, masses=system.masses)', n)
+        raise _TE('unsupported call', n)
+
+    # ---- statements (continuation-passing) --------------------------------------------
+    def wrap_binds(self, binds, lines):
+        for v, e in reversed(binds):
+            lines = [f'(match {e} with', '| .error e => .error e', f'| .ok {v} =>'] + _tind(lines) + [')']
+        return lines
+
+    @staticmethod
+    def _is_none_test(t):
+        return isinstance(t, ast.Compare) and len(t.ops) == 1 and isinstance(t.ops[0], (ast.Is, ast.IsNot)) \
+            and isinstance(t.left, ast.Name) and isinstance(t.comparators[0], ast.Constant) \
+            and t.comparators[0].value is None
+
+    def block(self, stmts, env, k):
+        """lines of a Lean term of type Except Err _ for `stmts` followed by the continuation k(env)."""
+        if not stmts:
+            return k(env)
+        s, rest = stmts[0], stmts[1:]
+        cont = lambda e: self.block(rest, e, k)
+        if isinstance(s, ast.Pass) or (isinstance(s, ast.Expr) and isinstance(s.value, ast.Constant)):
+            return cont(env)
+        if isinstance(s, ast.Raise):
+            return self.raise_(s)
+        if isinstance(s, ast.Assert):
+            a, t, b = self.prop(s.test, env)
+            return self.wrap_binds(b, [f'(if ¬ ({a}) then .error .assert else'] + _tind(cont(env)) + [')'])
+        if isinstance(s, ast.Return):
+            return self.ret(s, env)
+        if isinstance(s, ast.Try):
+            if s.orelse or s.finalbody or not s.handlers or not all(
+                    len(h.body) == 1 and isinstance(h.body[0], ast.Raise) for h in s.handlers):
+                raise _TE('unsupported try statement', s)
+            self.notes.append(f'{self.name}: try/except around `{ast.unparse(s.body[0])[:40]}` only re-raises '
+                              '(non-integer index objects; outside the model)')
+            return self.block(list(s.body) + rest, env, k)
+        if isinstance(s, ast.Assign) and len(s.targets) == 1 and isinstance(s.targets[0], ast.Name):
+            a, t, b = self.ex(s.value, env)
+            name = s.targets[0].id
+            e2 = dict(env)
+            if t in ('Dist', 'Close'):
+                e2[name] = (a, t)
+                return self.wrap_binds(b, cont(e2))
+            if t in ('Prop', 'HitList'):
+                raise _TE(f'assignment of a value of kind {t}', s)
+            e2[name] = (name, t)
+            return self.wrap_binds(b, [f'let {name} := {a}'] + cont(e2))
+        if isinstance(s, ast.Assign) and len(s.targets) == 1 and isinstance(s.targets[0], ast.Attribute):
+            tg = s.targets[0]
+            if tg.attr == 'old_id' and isinstance(tg.value, ast.Attribute) and tg.value.attr == 'atoms' \
+                    and isinstance(tg.value.value, ast.Name):
+                d, td, _ = self.ex(tg.value.value, env)
+                a, t, b = self.ex(s.value, env)
+                if td == 'Sys' and d != 'system' and t == 'ListNat':
+                    return self.wrap_binds(b, [f'let {d} := setOldColumn {d} {a}'] + cont(env))
+            raise _TE('unsupported attribute assignment', s)
+        if isinstance(s, ast.AugAssign) and isinstance(s.target, ast.Name) and isinstance(s.op, (ast.Add, ast.Sub)):
+            name = s.target.id
+            a, t, b = self.ex(ast.BinOp(left=ast.Name(id=name, ctx=ast.Load()), op=s.op, right=s.value), env)
+            e2 = dict(env)
+            e2[name] = (name, t)
+            return self.wrap_binds(b, [f'let {name} := {a}'] + cont(e2))
+        if isinstance(s, ast.Expr) and isinstance(s.value, ast.Call) and isinstance(s.value.func, ast.Attribute) \
+                and isinstance(s.value.func.value, ast.Name) and len(s.value.args) == 1 and not s.value.keywords:
+            lst, meth = s.value.func.value.id, s.value.func.attr
+            l, tl, _ = self.ex(s.value.func.value, env)
+            a, t, b = self.ex(s.value.args[0], env)
+            if tl == 'ListNat' and meth in ('pop', 'append'):
+                if t == 'Int' and isinstance(s.value.args[0], ast.Constant) and s.value.args[0].value >= 0:
+                    a, t = str(s.value.args[0].value), 'Nat'
+                if t != 'Nat':
+                    raise _TE(f'index-list {meth} with an index that is not normalised on every path', s)
+                new = f'{l}.eraseIdx {a}' if meth == 'pop' else f'{l} ++ [{a}]'
+                return self.wrap_binds(b, [f'let {lst} := {new}'] + cont(env))
+            raise _TE('unsupported call statement', s)
+        if isinstance(s, ast.For):
+            return self.loop(s, env, cont)
+        if isinstance(s, ast.If):
+            return self.if_(s, rest, env, k)
+        raise _TE('unsupported statement', s)
+
+    def raise_(self, s):
+        cls = None
+        if isinstance(s.exc, ast.Call) and isinstance(s.exc.func, ast.Name):
+            cls = s.exc.func.id
+        if cls != 'ValueError':
+            raise _TE('raise of something else than ValueError on a modelled path', s)
+        return ['.error .value']
+
+    def branches(self, s, env):
+        """[(lean pattern / condition pieces, body, env)] of an if statement (elif chains stay nested)."""
+        if self._is_none_test(s.test):
+            name = s.test.left.id
+            lean, t = env[name]
+            if not t.startswith('Opt'):
+                raise _TE(f'`is None` test of {name}, which is not optional here', s)
+            e_some = dict(env)
+            e_some[name] = (name, t[3:])
+            e_none = dict(env)
+            is_none = isinstance(s.test.ops[0], ast.Is)
+            some_body, none_body = (s.orelse, s.body) if is_none else (s.body, s.orelse)
+            return ('match', lean, name), [(some_body, e_some), (none_body, e_none)]
+        a, t, b = self.prop(s.test, env)
+        return ('if', a, b), [(s.body, dict(env)), (s.orelse, dict(env))]
+
+    def emit_if(self, head, parts):
+        if head[0] == 'match':
+            return [f'(match {head[1]} with', f'| some {head[2]} =>'] + _tind(parts[0]) + ['| none =>'] + _tind(parts[1]) + [')']
+        return self.wrap_binds(head[2], [f'(if {head[1]} then'] + _tind(parts[0]) + ['else'] + _tind(parts[1]) + [')'])
+
+    def if_(self, s, rest, env, k):
+        head, brs = self.branches(s, env)
+        # pass 1: which branches fall through, with which environments
+        falls = []
+        for body, e in brs:
+            got = []
+            self_nb = self.nbind
+            self.block(list(body), e, lambda ee: (got.append(ee), ['⟦fall⟧'])[1])
+            self.nbind = self_nb
+            falls.append(got)
+        nfall = sum(1 for g in falls if g)
+        cont = lambda e: self.block(rest, e, k)
+        if nfall <= 1 or not rest:
+            return self.emit_if(head, [self.block(list(body), e, cont) for body, e in brs])
+        # `if x is None: x = default`  ->  narrowing let
+        if head[0] == 'match' and isinstance(s.test.ops[0], ast.Is) and not s.orelse and len(s.body) == 1 \
+                and isinstance(s.body[0], ast.Assign) and len(s.body[0].targets) == 1 \
+                and isinstance(s.body[0].targets[0], ast.Name) and s.body[0].targets[0].id == s.test.left.id:
+            name = head[2]
+            a, t, b = self.ex(s.body[0].value, brs[1][1])
+            if b or 'Opt' + t != env[name][1]:
+                raise _TE('default assignment of another type', s)
+            e2 = dict(env)
+            e2[name] = (name, t)
+            return [f'let {name} := (match {head[1]} with | none => {a} | some {name} => {name})'] + cont(e2)
+        # `if c: x = f(x)`  ->  let x := if c then f x else x
+        if head[0] == 'if' and not head[2] and not s.orelse and len(s.body) == 1:
+            got = []
+            nb = self.nbind
+            ls = self.block(list(s.body), dict(env), lambda ee: (got.append(ee), ['⟦k⟧'])[1])
+            if len(ls) == 2 and ls[1] == '⟦k⟧' and ls[0].startswith('let ') and ' := ' in ls[0] and len(got) == 1:
+                name, val = ls[0][4:].split(' := ', 1)
+                if name in env and got[0].get(name) == env[name] and env[name][0] == name \
+                        and all(got[0].get(q) == env[q] for q in env):
+                    return [f'let {name} := (if {head[1]} then {val} else {name})'] + cont(env)
+            self.nbind = nb
+        # value mode: the statement computes the variables that every falling branch (re)defines
+        allenv = [e for g in falls for e in g]
+        names = [n for n in allenv[0] if all(n in e for e in allenv) and any(e[n] != env.get(n) for e in allenv)]
+        res, e_after = [], dict(env)
+        for n in list(env):
+            if any(e.get(n) != env[n] for e in allenv):
+                del e_after[n]
+        for n in names:
+            ts = {e[n][1] for e in allenv}
+            if ts <= {'Nat', 'Int'}:
+                res.append((n, 'Nat'))
+        if len(res) != 1:
+            raise _TE('if statement whose branches do not agree on exactly one (re)defined integer variable', s)
+        rn, rt = res[0]
+
+        def kval(e):
+            lean, t = e[rn]
+            return [f'.ok {lean}' if t == 'Nat' else f'.ok (Int.toNat {lean})']
+        parts = [self.block(list(body), e, kval) for body, e in brs]
+        e_after[rn] = (rn, rt)
+        val = self.emit_if(head, parts)
+        # the block becomes an auxiliary definition `<function>_<variable>` over the variables in scope
+        tys = dict(_LEAN_TYPES, ListNat='List Nat', Hits='List Nat')
+        ps = [(n, lt) for n, (lean, lt) in env.items() if lt in tys and lean == n]
+        aux = f'{self.name}_{rn}'
+        if aux in [a[0] for a in self.aux]:
+            raise _TE('two blocks computing the same variable', s)
+        self.aux.append((aux, [f'def {aux} ' + ' '.join(f'({n} : {tys[lt]})' for n, lt in ps) + ' : Except Err Nat :=']
+                         + _tind(val)))
+        return [f'(match {aux} ' + ' '.join(n for n, _ in ps) + ' with', '| .error e => .error e', f'| .ok {rn} =>'] \
+            + _tind(cont(e_after)) + [')']
+
+    # ---- the per-property loop --------------------------------------------------------
+    def loop(self, s, env, cont):
+        if not (isinstance(s.target, ast.Name) and isinstance(s.iter, ast.Call) and not s.iter.args and not s.iter.keywords
+                and isinstance(s.iter.func, ast.Attribute) and s.iter.func.attr == 'atoms_prop'
+                and isinstance(s.iter.func.value, ast.Name) and not s.orelse):
+            raise _TE('unsupported loop', s)
+        d, td, _ = self.ex(s.iter.func.value, env)
+        if td != 'Sys' or d == 'system':
+            raise _TE('loop over the properties of something else than the new system', s)
+        pv = s.target.id
+        if len(s.body) != 1 or not isinstance(s.body[0], ast.If):
+            raise _TE('loop body is not one if / elif chain', s)
+        chain, node, other = [], s.body[0], []
+        while True:
+            t = node.test
+            if not (isinstance(t, ast.Compare) and len(t.ops) == 1 and isinstance(t.ops[0], ast.Eq)
+                    and isinstance(t.left, ast.Name) and t.left.id == pv and isinstance(t.comparators[0], ast.Constant)
+                    and isinstance(t.comparators[0].value, str)):
+                raise _TE(f'loop branch condition is not `{pv} == <name>`', t)
+            key = t.comparators[0].value
+            if key not in RESERVED:
+                raise _TE(f'loop branch for the non-reserved property {key}', t)
+            if key in [c[0] for c in chain]:
+                raise _TE('duplicate loop branch', t)
+            chain.append((key, node.body))
+            if len(node.orelse) == 1 and isinstance(node.orelse[0], ast.If):
+                node = node.orelse[0]
+                continue
+            other = node.orelse
+            break
+        slots = [(key, body, False) for key, body in chain]
+        if other:
+            slots += [(key, other, True) for key in RESERVED if key not in [c[0] for c in chain]] + [(None, other, True)]
+        lines = []
+        for key, body, generic in slots:
+            for st in body:
+                lines += self.slot_stmt(st, d, pv, key, env)
+        return lines + cont(env)
+
+    def slot_stmt(self, st, d, pv, key, env):
+        """one statement of a loop branch taken for property `key` (None = every extra property)."""
+        if isinstance(st, ast.Pass):
+            return []
+        if isinstance(st, ast.Assign) and len(st.targets) == 1:
+            tgt, val, aug = st.targets[0], st.value, None
+        elif isinstance(st, ast.AugAssign) and isinstance(st.op, (ast.Add, ast.Sub)):
+            tgt, val, aug = st.target, st.value, ('+' if isinstance(st.op, ast.Add) else '-')
+        else:
+            raise _TE('unsupported statement in a loop branch', st)
+        if not (isinstance(tgt, ast.Subscript) and _adump(tgt.slice) in (_pe('-1'), _pe('-2'))):
+            raise _TE('loop branch assigns to something else than the last / last but one atom', st)
+        last = _adump(tgt.slice) == _pe('-1')
+        base = tgt.value
+        tkey = '?'
+        if isinstance(base, ast.Attribute) and isinstance(base.value, ast.Attribute) and base.value.attr == 'atoms' \
+                and isinstance(base.value.value, ast.Name) and base.value.value.id == d and base.attr in RESERVED:
+            tkey = base.attr
+        elif isinstance(base, ast.Subscript) and _adump(base.value) == _pe(f'{d}.atoms.view') \
+                and isinstance(base.slice, ast.Name) and base.slice.id == pv:
+            tkey = key
+        else:
+            raise _TE('unsupported assignment target in a loop branch', st)
+        if tkey != key:
+            raise _TE(f'loop branch for {key} assigns to {tkey}', st)
+        cur = 'cur'
+        rhs = self.slot_rhs(val, d, pv, key, env)
+        if aug is not None:
+            if key != 'pos':
+                raise _TE('augmented assignment to a property other than pos', st)
+            rhs = f'({cur} {aug} {rhs})'
+        if key == 'pos':
+            return [f'let {d} := {"setLastPos" if last else "setLast2Pos"} {d} (fun {cur} => {rhs})']
+        if not last:
+            raise _TE('assignment to the last but one atom of a property other than pos', st)
+        if key == 'atype':
+            return [f'let {d} := setLastAtype {d} (fun {cur} => {rhs})']
+        if key == 'old_id':
+            return [f'let {d} := setLastOld {d} (fun col {cur} => {rhs})']
+        return [f'let {d} := setLastExtras {d} {self.kwname} {rhs}']
+
+    def slot_rhs(self, n, d, pv, key, env):
+        """value assigned in a loop branch; `cur` = the current value of that entry, `col` = the old_id column."""
+        def is_cur(x):
+            if isinstance(x, ast.Subscript) and _adump(x.slice) == _pe('-1'):
+                b = x.value
+                if isinstance(b, ast.Subscript) and _adump(b.value) == _pe(f'{d}.atoms.view') \
+                        and isinstance(b.slice, ast.Name) and b.slice.id == pv:
+                    return True
+                if key is not None and _adump(b) == _pe(f'{d}.atoms.{key}'):
+                    return True
+            return False
+
+        def val(x):
+            if is_cur(x):
+                return 'cur'
+            if key == 'old_id' and isinstance(x, ast.BinOp) and isinstance(x.op, ast.Add) \
+                    and _adump(x.left) == _pe(f'{d}.atoms.old_id.max()') and _adump(x.right) == _pe('1'):
+                return '(maxD col + 1)'
+            if key in ('atype', 'old_id'):
+                a, t, b = self.ex(x, env)
+                if t == 'Int' and not b:
+                    return a
+            if key == 'pos':
+                a, t, b = self.ex(x, env)
+                if t == 'V3' and not b:
+                    return a
+            raise _TE(f'unsupported value for property {key}', x)
+
+        if isinstance(n, ast.Call) and isinstance(n.func, ast.Attribute) and n.func.attr == 'pop' \
+                and isinstance(n.func.value, ast.Name) and n.func.value.id == self.kwname and len(n.args) == 2 \
+                and not n.keywords:
+            k0, dfl = n.args
+            if isinstance(k0, ast.Name) and k0.id == pv:
+                kk = key
+            elif isinstance(k0, ast.Constant) and isinstance(k0.value, str):
+                kk = k0.value
+                if kk != key:
+                    raise _TE(f'loop branch for {key} pops the keyword {kk}', n)
+            else:
+                raise _TE('unsupported kwargs.pop key', n)
+            if kk == 'atype':
+                return f'({self.kwname}.atype.getD {val(dfl)})'
+            if kk == 'old_id':
+                return f'({self.kwname}.oldId.getD {val(dfl)})'
+            if kk is None:
+                if is_cur(dfl):
+                    return 'id'
+                if isinstance(dfl, ast.Call) and _adump(dfl.func) == _pe('np.zeros_like') and len(dfl.args) == 1 \
+                        and not dfl.keywords and is_cur(dfl.args[0]):
+                    return 'zerosLike'
+                raise _TE('unsupported default of an extra property', n)
+            raise _TE(f'the keyword {kk} cannot be routed to the model', n)
+        if key is None:
+            raise _TE('extra properties assigned without kwargs.pop', n)
+        return val(n)
+
+    # ---- return -----------------------------------------------------------------------
+    def ret(self, s, env):
+        v = s.value
+        if isinstance(v, ast.Name):
+            a, t, _ = self.ex(v, env)
+            if t == 'Sys' and a != 'system':
+                return [f'.ok (fixSym {a})']
+            raise _TE('return of something else than the new system', s)
+        if isinstance(v, ast.Call) and isinstance(v.func, ast.Name) and v.func.id in self.ptypes:
+            callee = v.func.id
+            sig = self.sigs[callee]
+            ptypes = self.ptypes[callee]
+            given = {}
+            names = [p for p, _ in sig if not p.startswith('**')]
+            for i, a in enumerate(v.args):
+                if isinstance(a, ast.Starred) or i >= len(names):
+                    raise _TE('unsupported positional arguments', s)
+                given[names[i]] = a
+            star = False
+            for kw in v.keywords:
+                if kw.arg is None:
+                    if not (isinstance(kw.value, ast.Name) and kw.value.id == self.kwname):
+                        raise _TE('unsupported ** argument', s)
+                    star = True
+                    continue
+                if kw.arg in given or kw.arg not in names:
+                    raise _TE(f'keyword {kw.arg} does not fit {callee}', s)
+                given[kw.arg] = kw.value
+            callee_kw = any(p.startswith('**') for p, _ in sig)
+            if star and not callee_kw:
+                raise _TE(f'**kwargs handed to {callee}, which takes none', s)
+            args, wraps, stripped = ['dflt'], [], []
+            for p, d in sig:
+                if p.startswith('**'):
+                    kwv = env[self.kwname][0] if star else '{}'
+                    for f_ in stripped:
+                        kwv = f'{{ {kwv} with {f_} := none }}'
+                    args.append(kwv if kwv in ('{}',) or ' ' not in kwv else f'({kwv})')
+                    continue
+                want = ptypes[p]
+                if p in given:
+                    a, t, b = self.ex(given[p], env)
+                    if b:
+                        raise _TE('unsupported argument', s)
+                    if t == want:
+                        args.append(a)
+                    elif t == 'Opt' + want:
+                        wraps.append(a)
+                        args.append(a)
+                    elif 'Opt' + t == want:
+                        args.append(f'(some {a})')
+                    else:
+                        raise _TE(f'argument {p} of type {t}, {callee} takes {want}', s)
+                    continue
+                # not handed on: a named parameter can still be bound from **kwargs, else the callee's default
+                field = {'atype': 'atype', 'old_id': 'oldId'}.get(p)
+                if d == '':
+                    raise _TE(f'required argument {p} of {callee} not given', s)
+                dl = {'None': 'none', 'False': 'false', 'True': 'true'}.get(d)
+                if dl is None:
+                    try:
+                        dl = f'({int(d)} : Int)'
+                    except ValueError:
+                        raise _TE(f'default {d} of {callee}.{p}', s)
+                if (dl == 'none') != want.startswith('Opt'):
+                    raise _TE(f'default {d} of {callee}.{p} does not fit its use', s)
+                if star and field is not None:
+                    args.append(f'({env[self.kwname][0]}.{field}.getD {dl})')
+                    stripped.append(field)
+                elif star and p in ('pos',):
+                    raise _TE(f'{p} could arrive through **kwargs', s)
+                else:
+                    args.append(dl)
+            lines = [f'{callee} ' + ' '.join(args)]
+            for a in reversed(wraps):
+                lines = [f'(match {a} with', '| none => .error .value', f'| some {a} =>'] + _tind(lines) + [')']
+            return lines
+        raise _TE('unsupported return value', s)
+
+    # ---- whole function ---------------------------------------------------------------
+    def compile(self):
+        ps = self.params()
+        env = {p: (p, t) for p, t in ps}
+        body = list(self.node.body)
+        if body and isinstance(body[0], ast.Expr) and isinstance(body[0].value, ast.Constant):
+            body = body[1:]
+
+        def fell(e):
+            raise _TE(f'{self.name}: a path reaches the end of the function without return / raise')
+        lines = self.block(body, env, fell)
+        sig = ' '.join(f'({p} : {_LEAN_TYPES[t]})' for p, t in ps)
+        return [f'def {self.name} (dflt : K) {sig} : Except Err (Sys K) :='] + _tind(lines), dict(ps)
+
+
+def _signature(fn):
+    a = fn.args
+    if a.posonlyargs or a.kwonlyargs or a.vararg:
+        raise _TE(f'{fn.name}: unsupported kind of parameter')
+    defaults = [None] * (len(a.args) - len(a.defaults)) + list(a.defaults)
+    out = [(p.arg, '' if d is None else ast.unparse(d)) for p, d in zip(a.args, defaults)]
+    if a.kwarg is not None:
+        out.append(('**' + a.kwarg.arg, ''))
+    return out
+
+
+def translate():
+    src = cm.source(POINT_FILE)
+    tree = ast.parse(src)
+    fns = {n.name: n for n in tree.body if isinstance(n, ast.FunctionDef)}
+    missing = [f for f in GEN_FUNCS if f not in fns]
+    if missing:
+        raise _TE(f'functions missing from {POINT_FILE}: {missing}')
+    extra = sorted(set(fns) - set(GEN_FUNCS))
+    helpers = [n for n in tree.body if not isinstance(n, (ast.FunctionDef, ast.Import, ast.ImportFrom))
+               and not (isinstance(n, ast.Expr) and isinstance(n.value, ast.Constant))
+               and not (isinstance(n, ast.Assign) and _adump(n.targets[0]) == ast.dump(ast.Name(id='__all__', ctx=ast.Store())))]
+    if extra or helpers:
+        raise _TE(f'{POINT_FILE} has module-level code the translator does not know: functions {extra}, '
+                  f'{[ast.unparse(h)[:60] for h in helpers]}')
+    for f in GEN_FUNCS:
+        if fns[f].decorator_list:
+            raise _TE(f'{f}: decorated')
+    sigs = {f: _signature(fns[f]) for f in GEN_FUNCS}
+    ptypes, defs, dflts, notes, raises = {}, [], [], [], []
+    for f in GEN_FUNCS:
+        c = _Fn(fns[f], sigs, ptypes)
+        lines, pt = c.compile()
+        ptypes[f] = pt
+        for an, al in c.aux:
+            defs.append((an, al))
+        defs.append((f, lines))
+        notes += c.notes
+        if f != 'point':
+            if c.dflt is None:
+                raise _TE(f'{f}: no default tolerance found')
+            dflts.append((f,) + c.dflt)
+        cls = []
+        for n in ast.walk(fns[f]):
+            if isinstance(n, ast.Assert):
+                cls.append((n.lineno, 'AssertionError', ast.unparse(n.msg) if n.msg else ''))
+            if isinstance(n, ast.Raise):
+                ok = isinstance(n.exc, ast.Call) and isinstance(n.exc.func, ast.Name)
+                cls.append((n.lineno, n.exc.func.id if ok else '?',
+                            ast.unparse(n.exc.args[0]) if ok and n.exc.args else ''))
+        raises.append((f, sorted(cls)))
+    order = ['point', 'vacancy', 'interstitial', 'substitutional', 'dumbbell']
+    A = []
+    A.append(f'/- GENERATED by harness/props/c15.py (translate) from {POINT_FILE} — do not edit.')
+    A.append('   Every function is the statement-by-statement compilation of the CURRENT source into the source-level')
+    A.append('   primitives of `Atomman/C15.lean`; `Proofs/C15_Source.lean` proves each one equal to the hand model')
+    A.append('   (`gen_…_eq_model`). -/')
+    A.append('import Atomman.C15')
+    A.append('')
+    A.append('namespace Atomman.Generated.PointSource')
+    A.append('open Atomman Atomman.C15')
+    A.append('set_option linter.unusedVariables false')
+    A.append('')
+    A.append('/-- signatures as written: (function, [(parameter, default; "" = required)]). -/')
+    A.append('def signatures : List (String × List (String × String)) :=')
+    A.append('  [' + ',\n   '.join('(' + _lstr(f) + ', [' + ', '.join(f'({_lstr(p)}, {_lstr(d)})' for p, d in sigs[f]) + '])'
+                                  for f in order) + ']')
+    A.append('/-- the literal and unit of `uc.set_in_units(…)` that replaces `atol=None`, per function. -/')
+    A.append('def dfltLiterals : List (String × Nat × Nat × String) :=')
+    A.append('  [' + ', '.join(f'({_lstr(f)}, {a}, {b}, {_lstr(u)})' for f, a, b, u in dflts) + ']')
+    A.append('/-- the exception class of every `raise` / `assert`, in source order. -/')
+    A.append('def raiseClasses : List (String × List String) :=')
+    A.append('  [' + ',\n   '.join('(' + _lstr(f) + ', [' + ', '.join(_lstr(c[1]) for c in dict(raises)[f]) + '])'
+                                  for f in order) + ']')
+    A.append('/-- their messages (documentation only). -/')
+    A.append('def raiseMessages : List (String × List String) :=')
+    A.append('  [' + ',\n   '.join('(' + _lstr(f) + ', [' + ', '.join(_lstr(c[2]) for c in dict(raises)[f]) + '])'
+                                  for f in order) + ']')
+    A.append('')
+    A.append('section')
+    A.append('variable {K : Type} [Add K] [Sub K] [Mul K] [Zero K] [IntCast K] [LT K] [DecidableLT K] [DecidableEq K]')
+    A.append('')
+    for f, lines in defs:
+        A.append(f'/-- `{f}` of point.py, line {fns[f].lineno}. -/' if f in fns else
+                 f'/-- the if / elif / else statement of `{f.split("_")[0]}` that computes `{f.split("_", 1)[1]}`. -/')
+        A += lines
+        A.append('')
+    A.append('end')
+    for nt in notes:
+        A.append('-- note: ' + nt)
+    A.append('end Atomman.Generated.PointSource')
+    return {'PointSource': '\n'.join(A) + '\n'}
 
 
 # ----------------------------------------------------------------------------------------
